@@ -32,6 +32,41 @@ CHECKS = {
             "For every fault script and every interleaving up to the preemption bound the call must return the single-thread error kind, with no panic in any thread, no thread alive at return and no deadlock; the model adds deadlock freedom and termination for more workers/frames with unbounded preemptions.",
             "Same trusted base as C05; faults limited to the two kinds the statement names; a loom deadlock report aborts the child process and is classified from its panic journal.",
             "DESIGN.md 3 C06"),
+    "C07": ("exploration",
+            "exhaustive enumeration of all single- and two-field deviations of the configuration from three valid base points over boundary/extreme value grids; reference predicate written from the documented ranges; accepted configurations run on a probe corpus",
+            "into_verified().is_ok() is compared with a documented-range predicate for ~10^4 configurations (every 1- and 2-field deviation), and every accepted in-range configuration must encode 7-8 probe inputs without panic and losslessly (two decoders).",
+            "Ranges taken from the statement and the doc comments; probe inputs are the six universe base inputs plus two shapes; built without the experimental feature.",
+            "DESIGN.md 3 C07"),
+    "C10": ("exploration",
+            "exhaustive enumeration of all call sequences of length <= 2 (quick) / <= 3 (thorough) over an alphabet of ~25 calls, each sequence on one fresh thread; call-by-call bytes compared with the same call alone on a fresh thread",
+            "Every sequence over the call alphabet up to the stated depth is executed on a newly spawned thread and each call must reproduce the bytes of the same call made alone on a fresh thread; the alphabet is chosen from the thread-local scratch buffers and caches visible in the code.",
+            "History effects that need a call outside the alphabet, or more than 3 calls, are out of reach; other threads' influence is covered only through the multi-thread call of the alphabet (no shared mutable globals exist in the crate).",
+            "DESIGN.md 3 C10"),
+    "C11": ("exploration",
+            "exhaustive enumeration of sink operation sequences: every start offset 0..=63 x every op x every op (depth 2; depth 3 on a reduced alphabet) over ~2.4k ops incl. every width n in 0..=BITS, against an ideal MSB-first bit string; user-defined minimal sink vs ByteSink over a corpus",
+            "Both in-memory sinks are compared with an ideal bit string after every step of every operation sequence up to depth 2 (3) from every bit offset, and a sink implementing only the required methods must receive the same bits as ByteSink for every component of a corpus.",
+            "Operand values limited to 3 (quick) / 7 (thorough) patterns per type; the model is the harness's own bit string.",
+            "DESIGN.md 3 C11"),
+    "C12": ("fault_enumeration",
+            "fault enumeration: a user sink failing on its k-th operation for EVERY k, three sink flavours, over streams / frames / headers / subframes / residuals / metadata",
+            "For every target and flavour the number of sink operations N of a full write is measured and the write is repeated with the sink failing at operation k for every k < N: the result must be Err(OutputError::Sink), without panic, and the accepted bits a prefix of the reference bit string.",
+            "Targets limited to five small streams and their components.",
+            "DESIGN.md 3 C12"),
+    "C14": ("exploration",
+            "exhaustive enumeration of channels 1..=8 x width/bytes-per-sample x capacity x every fill length 0..=capacity (after a full fill) x value patterns; int path vs byte path compared at buffer, context, frame and stream level",
+            "Every fill length for every channel count and bytes-per-sample is delivered both as integers and as packed bytes; frame buffer contents, context digest/count/frame number, the verbatim-coded frame and whole streams (ST, MT, frame-level) must be identical, and equal to the input.",
+            "FrameBuf contents are read through its Debug rendering (the only public view); 4 capacities; 3 value patterns.",
+            "DESIGN.md 3 C14"),
+    "C16": ("fault_enumeration",
+            "fault enumeration: every non-zero XOR mask on every frame byte, every burst of width 2..=8 at every bit offset, truncation after every byte, every value of 1 (and 2) bytes at grammar cut points, over a corpus of small emitted streams; plus a fixed list of pseudo-random inputs",
+            "Every alteration of at most 8 contiguous bits inside a frame of each corpus stream is parsed: the parser must not panic and must either reject the stream or return identical audio; truncations, substitutions and a fixed list of arbitrary inputs must not panic.",
+            "Corpus of 12 (quick) / 20 (thorough) streams of 100-700 bytes; allocation failure and hangs are watched by the runner's watchdog.",
+            "DESIGN.md 3 C16"),
+    "C19": ("exploration",
+            "exhaustive enumeration: TOML round trip over every 1- and 2-field deviation of the configuration; documents written by the harness with every subset (thorough: all 2^19) of the 19 leaf keys omitted, compared with a documented-defaults table",
+            "Round trip equality, default substitution for exactly the omitted leaves and agreement of verify() with the documented ranges are checked for ~9k values and for every omission subset of the 19 leaf keys (quick: subsets of size <= 3 or co-size <= 2).",
+            "Values TOML cannot carry (NaN, integers >= 2^63) excluded; documents in which an enum's tag is omitted omit the whole enum; defaults table written from the doc comments (multithread default true: built with feature par).",
+            "DESIGN.md 3 C19"),
     "C08": ("exploration",
             "exhaustive enumeration of every component of every stream of U_2/U_3 + G9 (encoder- and parser-produced, before/after precompute) and of constructor grids incl. the 2^32 quotient-sum switch; count_bits compared with three sinks",
             "count_bits() is compared with the bits received by MemSink<u8>, MemSink<u64> and a counting sink for every component reachable through public accessors, and for public constructors over grids that straddle every counting shortcut in the code.",
